@@ -77,6 +77,14 @@ class Driver:
     def alphabet(self, p):
         return list(self.symbols)
 
+    def family_configs(self, tier):
+        """Extra parameter sets that only change HOW the same symbols reach the detector (container, dtype,
+        level, scale): used by C01 / C02 / C17, not by the checks that vary containers themselves."""
+        return []
+
+    def all_configs(self, tier):
+        return list(self.configs(tier)) + list(self.family_configs(tier))
+
     # -- feeding -------------------------------------------------------------
     def feed(self, det, sym, p):
         raise NotImplementedError
@@ -192,8 +200,20 @@ class LFRDriver(Driver):
 # univariate change detectors: symbols are the values themselves
 # ----------------------------------------------------------------------------
 class _UniDriver(Driver):
+    def value(self, sym, p):
+        """the number a symbol stands for under the configuration's level / scale family"""
+        return sym * p.get("_scale", 1) + p.get("_offset", 0)
+
     def feed(self, det, sym, p):
-        det.update(X=sym)
+        x = self.value(sym, p)
+        c = p.get("_container")
+        if c == "DataFrame":
+            x = pd.DataFrame({"x": [float(x)]})
+        elif c == "list":
+            x = [float(x)]
+        elif c == "float32":
+            x = np.array([[x]], dtype=np.float32)
+        det.update(X=x)
 
 
 class ADWINDriver(_UniDriver):
@@ -229,6 +249,12 @@ class CUSUMDriver(_UniDriver):
             {"target": None, "sd_hat": None, "burn_in": 3, "delta": 0, "threshold": 2, "direction": "negative"},
         ]
 
+    def family_configs(self, tier):
+        return [
+            {"target": None, "sd_hat": None, "burn_in": 2, "delta": 0.5, "threshold": 1, "_offset": 3.0e7},
+            {"target": None, "sd_hat": None, "burn_in": 2, "delta": 0, "threshold": 2, "_scale": 1e-6, "_container": "DataFrame"},
+        ]
+
 
 class PHDriver(_UniDriver):
     name = "PageHinkley"
@@ -240,6 +266,12 @@ class PHDriver(_UniDriver):
             {"delta": 0.0, "threshold": 1, "burn_in": 0},
             {"delta": 0.5, "threshold": 2, "burn_in": 1},
             {"delta": 0.0, "threshold": 1, "burn_in": 3, "direction": "negative"},
+        ]
+
+    def family_configs(self, tier):
+        return [
+            {"delta": 0.0, "threshold": 1, "burn_in": 2, "_offset": 1.0e6, "_container": "list"},
+            {"delta": 0.0, "threshold": 0.5, "burn_in": 1, "direction": "negative", "_scale": 0.001, "_container": "DataFrame"},
         ]
 
     def extra_obs(self, det):
@@ -271,8 +303,20 @@ class KdqStreamDriver(Driver):
             {"window_size": 3, "persistence": 0.3, "alpha": 0.3, "bootstrap_samples": 8, "count_ubound": 1},
         ]
 
+    def family_configs(self, tier):
+        return [
+            {"window_size": 2, "persistence": 0.5, "alpha": 0.6, "bootstrap_samples": 8, "count_ubound": 1, "_container": "DataFrame2"},
+            {"window_size": 3, "persistence": 0.0, "alpha": 0.6, "bootstrap_samples": 8, "count_ubound": 1, "_container": "int"},
+        ]
+
     def feed(self, det, sym, p):
-        det.update(np.array([[float(sym)]]))
+        c = p.get("_container")
+        if c == "DataFrame2":  # two named features, the second one a function of the first
+            det.update(pd.DataFrame({"a": [float(sym)], "b": [float(sym % 2)]}))
+        elif c == "int":
+            det.update(np.array([[int(sym)]]))
+        else:
+            det.update(np.array([[float(sym)]]))
 
     def extra_obs(self, det):
         return {}
@@ -312,7 +356,19 @@ class _BatchDriver(Driver):
     initial_ref = 0  # menu index of the reference installed by make()
 
     def batch(self, sym, p):
-        return self.menu[sym].copy()
+        b = self.menu[sym].copy()
+        c = p.get("_container")
+        if c == "DataFrame":
+            return pd.DataFrame(b, columns=["a", "b", "c"][: b.shape[1]])
+        if c == "list":
+            return b.tolist()
+        if c == "float32":
+            return b.astype(np.float32)
+        return b
+
+    def family_configs(self, tier):
+        base = self.configs(tier)[0]
+        return [dict(base, _container="DataFrame"), dict(base, _container="list")]
 
     def make(self, p):
         det = self.cls(**self.ctor(p))
